@@ -105,19 +105,20 @@ pub fn run(case: &Case) -> Outcome {
                 for (r, (count, delay)) in plan.iter().enumerate() {
                     states.enter(ai, r, U);
                     // after the previous park of the parker has returned ...
-                    let mut backoff = 300u64;
-                    loop {
-                        let ready = slots[target].returned.load(Ordering::SeqCst) >= r
-                            && if tkind == K_CO {
-                                slots[target].co.lock().unwrap().is_some()
-                            } else {
-                                matches!(&*slots[target].blocker.lock().unwrap(), Some((rr, _)) if *rr >= r)
-                            };
-                        if ready {
-                            break;
-                        }
-                        sleep_ns(backoff);
-                        backoff = (backoff * 2).min(100_000);
+                    let ready = poll_until(
+                        || {
+                            slots[target].returned.load(Ordering::SeqCst) >= r
+                                && if tkind == K_CO {
+                                    slots[target].co.lock().unwrap().is_some()
+                                } else {
+                                    matches!(&*slots[target].blocker.lock().unwrap(), Some((rr, _)) if *rr >= r)
+                                }
+                        },
+                        2_000_000_000,
+                    );
+                    if !ready {
+                        // the parker is stuck in an earlier round: the detector will say so
+                        return;
                     }
                     if *delay > 0 {
                         sleep_ns(*delay as u64);
